@@ -45,7 +45,7 @@ Ent(q, t, all, nb, n, m, k, v) ==
 
 Unknown == 99
 NBunches(g) == { <<TRUE, <<>>>> } \cup { <<FALSE, <<n>>>> : n \in g.nodes }
-                 \cup { <<FALSE, <<n, Unknown>>>> : n \in g.nodes } \cup { <<FALSE, <<Unknown>>>> }
+                 \cup { <<FALSE, <<n, Unknown>>>> : n \in g.nodes } \cup { <<FALSE, <<Unknown>>>>, <<FALSE, <<>>>> }
 NbNodes(g, b) == IF b[1] THEN g.nodes ELSE ToSet(b[2]) \cap g.nodes
 
 QTimes == GridSet \cup {NoT}
